@@ -134,6 +134,43 @@ def l2_krylov_invariant(run, rng, quick):
                           dict(n=n, complex_A=cplx, dt=str(dt), block_size=bs, rel_err=err, krylov_steps=int(j), np_seed_hint="matrix = (h+h^H)/2 of the run's RNG stream",
                                what="a local problem that needs more than 50 Lanczos vectors is propagated wrongly"))
     run.cov["krylov_long_recurrences"] = nlong
+    # nearly invariant subspaces: the start vector lives in a small block that is coupled to the rest by one weak matrix
+    # element (1e-3..1e-2); the recurrence crosses the link late, and a convergence test that looks only at the leading
+    # coefficients stops too early. The routine's own criterion is |delta| <= 1e-8; allow 3e-6 relative.
+    nweak = 0
+    for _ in range(60 if quick else 500):
+        n = int(rng.integers(12, 40))
+        m = int(rng.integers(3, 7))
+        cplx = bool(rng.random() < 0.5)
+
+        def herm(k):
+            h = rng.normal(size=(k, k)) + (1j * rng.normal(size=(k, k)) if cplx else 0)
+            return (h + h.conj().T) / 2
+        a = scipy.linalg.block_diag(herm(m), herm(n - m)).astype(complex if cplx else float)
+        eps = float(rng.uniform(1e-3, 1e-2))
+        i, j2 = int(rng.integers(m)), m + int(rng.integers(n - m))
+        a[i, j2] += eps
+        a[j2, i] += eps
+        x = float(rng.uniform(4, 12)) / float(np.linalg.norm(a, 2))
+        dt = ((1j if rng.random() < 0.5 else -1j) * x) if rng.random() < 0.6 else -x
+        v = np.zeros(n, dtype=complex if (cplx or rng.random() < 0.5) else float)
+        v[:m] = rng.normal(size=m)
+        bs = int(rng.choice([3, 5, 50]))
+        try:
+            got, j = expm_krylov(lambda y: a @ y, dt, v.copy(), block_size=bs)
+        except Exception as e:  # noqa
+            run.violation(f"krylov:weak-link:raises:{type(e).__name__}", dict(n=n, m=m, complex_A=cplx, dt=str(dt), block_size=bs, error=repr(e)[:200]))
+            continue
+        ref = scipy.linalg.expm(dt * a) @ v
+        err = float(np.linalg.norm(np.asarray(got).ravel() - ref) / np.linalg.norm(ref))
+        nweak += 1
+        run.count(f"krylov-weak-link:m={m}:{'imag-dt' if np.iscomplex(dt) else 'real-dt'}")
+        if err > 3e-6:
+            run.violation("krylov:weak-link:stopped-early",
+                          dict(n=n, m=m, complex_A=cplx, dt=str(dt), block_size=bs, link=eps, rel_err=err, krylov_steps=int(j),
+                               A=dict(re=a.real.tolist(), im=np.imag(a).tolist()), v=dict(re=np.real(v).tolist(), im=np.imag(v).tolist()),
+                               what="start vector in a block coupled to the rest by one weak element: result differs from expm(dt A) v by more than 3e-6"))
+    run.cov["krylov_weak_link_cases"] = nweak
     return done
 
 
